@@ -692,6 +692,17 @@ static char *read_file(char *path) {
     fwrite(buf2, 1, n, out);
   }
 
+  // A file that can be opened but not read (a directory, an I/O
+  // error) is not an empty file.
+  if (ferror(fp)) {
+    if (fp != stdin)
+      fclose(fp);
+    fclose(out);
+    if (!errno)
+      errno = EIO;
+    return NULL;
+  }
+
   if (fp != stdin)
     fclose(fp);
 
